@@ -112,6 +112,8 @@ def check_program(h, m, ctor, arr, hits, out, fops='', getdel=None, reset=None):
     if kv2.get('dm') != '1' or canon != want:
         out.append(Violation('parse-back', 'values', 'parsing the marshalled bytes gives different values\n want: %s\n got : %s' % (want, canon), dict(case, bytes=b1.hex())))
         return
+    if kv2.get('fixedmismatch', '0') != '0':
+        out.append(Violation('parse-back', 'fixed-array-block-read', 'dbus_message_iter_get_fixed_array / get_element_count (from the first and from later positions) disagree with element-wise iteration', dict(case, bytes=b1.hex())))
     if kv2.get('re0') != b1.hex():
         out.append(Violation('remarshal', 'not-identical', 're-serialisation is not byte-identical', dict(case, bytes=b1.hex())))
     hits['parse-back'] = hits.get('parse-back', 0) + 1
@@ -126,6 +128,8 @@ def check_program(h, m, ctor, arr, hits, out, fops='', getdel=None, reset=None):
         return
     canon3 = r3.split(' canon=', 1)[1] if ' canon=' in r3 else None
     kv3 = parse_kv(r3.split(' canon=', 1)[0])
+    if kv3.get('fixedmismatch', '0') != '0':
+        out.append(Violation('byteswap', 'fixed-array-block-read', 'block reads of fixed arrays disagree with element-wise iteration after conversion from the other byte order', dict(case, bytes=b_be.hex())))
     if kv3.get('dm') != '1' or canon3 != want:
         out.append(Violation('byteswap', 'values', 'big-endian encoding of the same message reads back differently\n want: %s\n got : %s' % (want, canon3), dict(case, bytes=b_be.hex())))
         return
